@@ -169,3 +169,25 @@ Lemma load_script_fresh_slots s prog sid rv :
   f_local (s_fr s') = None /\ f_args (s_fr s') = None /\ sc_static (s_sc s') = None /\
   s_outer s' = (s_sc s, (s_fr s, s_frames s)) :: s_outer s.
 Proof. repeat split. Qed.
+
+(* ---------- the result of every arithmetic / bitwise instruction is an Integer, whatever the operand item types ---------- *)
+Definition arith_op (op : opcode) : bool :=
+  match op with
+  | INVERT | AND | OR | XOR | SIGN | ABS | NEGATE | INC | DEC | ADD | SUB | MUL | DIV | MOD | POW | SQRT
+  | MODMUL | MODPOW | SHL | SHR | MIN | MAX => true | _ => false end.
+Lemma d_add_es' it d : d_es (d_add it d) = d_es d.
+Proof. unfold d_add. destruct (ref_add (d_heap d) (d_refs d) it). reflexivity. Qed.
+Lemma push_int_top z d d' : push_int z d = Some d' -> exists z', d_es d' = IInt z' :: d_es d.
+Proof. unfold push_int. destruct (mk_int256 z) as [z'|]; [|discriminate]. intros Q; inv Q. exists z'. unfold push. rewrite d_add_es'. reflexivity. Qed.
+Theorem arith_results_are_integers e op p d d' :
+  arith_op op = true -> exec_data e op p d = DOk d' -> exists z tl, d_es d' = IInt z :: tl.
+Proof.
+  intros A. unfold exec_data. destruct op; try discriminate A; cbn [exec_data_opt]; unfold un_int, bin_int, okd, ok;
+  repeat match goal with
+  | |- match (match ?x with Some _ => _ | None => None end) with _ => _ end = _ -> _ => destruct x as [[? ?]|] eqn:?; [|discriminate]
+  | |- match (match ?x with Some _ => _ | None => None end) with _ => _ end = _ -> _ => destruct x eqn:?; [|discriminate]
+  | |- match (if ?b then _ else _) with _ => _ end = _ -> _ => destruct b; [discriminate|]
+  | |- match (if ?b then _ else _) with _ => _ end = _ -> _ => destruct b
+  end; try discriminate; intros Q; inv Q;
+  match goal with H : push_int _ _ = Some _ |- _ => destruct (push_int_top _ _ _ H) as (z' & E); eauto end.
+Qed.
